@@ -18,7 +18,7 @@ import (
 
 func c17Counts(tier string) (batches, per int) {
 	if tier == "thorough" {
-		return 1000, 30
+		return 3000, 30
 	}
 	return 150, 20
 }
@@ -173,6 +173,37 @@ func c17Characters(c *Ctx, sample bool) {
 		args = append(args, "--exclude="+s)
 		rec.Exclude = f
 	}
+	if r.Chance(1, 8) { // fewer characters than required classes, yet honourable: classes overlap through 'ambiguous',
+		// or a required class is excluded as well and so stops being required
+		type combo struct {
+			allow, require, exclude string
+		}
+		cb := []combo{
+			{"digits", "digits,ambiguous", "symbols"},
+			{"digits", "uppercase,digits,ambiguous", "symbols"},
+			{"uppercase,digits", "uppercase,ambiguous", "symbols"},
+			{"lowercase", "lowercase,ambiguous", "digits"},
+			{"", "uppercase,digits", "uppercase,digits"},
+			{"lowercase", "symbols,digits", "symbols,digits"},
+		}[r.Intn(6)]
+		L := r.Range(1, 2)
+		args = []string{"characters", fmt.Sprintf("--length=%d", L), "--require=" + cb.require, "--exclude=" + cb.exclude}
+		rec = spg.CharRecipe{Length: L, Allow: 15}
+		if cb.allow != "" {
+			args = append(args, "--allow="+cb.allow)
+			rec.Allow = 0
+			for _, w := range strings.Split(cb.allow, ",") {
+				rec.Allow |= c17Class[w]
+			}
+		}
+		for _, w := range strings.Split(cb.require, ",") {
+			rec.Require |= c17Class[w]
+		}
+		for _, w := range strings.Split(cb.exclude, ",") {
+			rec.Exclude |= c17Class[w]
+		}
+		c.Count("short_length_overlapping_class_cases", 1)
+	}
 	entropy := r.Chance(1, 4)
 	if entropy {
 		args = append(args, "--entropy")
@@ -188,7 +219,7 @@ func c17Characters(c *Ctx, sample bool) {
 		switch {
 		case pf < 0.99*pstar:
 			mustRefuse = true
-		case pf <= 1.01*pstar || sem.Emptied > 0:
+		case pf <= 1.01*pstar || (sem.Emptied > 0 && len(sem.ReqLive) > 0):
 			judged = false
 		}
 	}
@@ -302,7 +333,19 @@ func c17Words(c *Ctx, sample bool) {
 		input = c17FileLists[r.Intn(len(c17FileLists))]
 		path := filepath.Join(c.Dir, fmt.Sprintf("c17-%d-%d.txt", c.Case, r.U32()))
 		sep := []string{"\n", " ", "\n\n", "\t"}[r.Intn(4)]
-		os.WriteFile(path, []byte(strings.Join(input, sep)+"\n"), 0o644)
+		if r.Chance(1, 10) { // thousands of words on one line (more than 64 KiB), then more lines
+			big := make([]string, 0, 12000)
+			for i := 0; i < 11000; i++ {
+				big = append(big, fmt.Sprintf("word%dx", i))
+			}
+			input = append(append([]string{"first", "second"}, big...), "last", "verylast")
+			os.WriteFile(path, []byte("first\nsecond\n"+strings.Join(big, " ")+"\nlast\nverylast\n"), 0o644)
+			sep = ""
+			c.Count("files_with_a_line_over_64KiB", 1)
+		}
+		if sep != "" {
+			os.WriteFile(path, []byte(strings.Join(input, sep)+"\n"), 0o644)
+		}
 		defer os.Remove(path)
 		args = append(args, "--file="+path)
 		listDesc = fmt.Sprintf("file %q", input)
